@@ -512,6 +512,6 @@ func openRun(prop, tier string, c Case, w *Worker) (res Result) {
 func init() {
 	register(&Engine{Name: "opens", Props: []string{"C16"}, Cases: openCases, Run: openRun})
 	propMeta["C16"] = PropMeta{Level: "fault_enumeration",
-		Rule:        "per case a tape is produced by a generated history; for EVERY block-aligned prefix length (0, 512, ..., len) whose from-scratch rebuild succeeds and finds a root, combined with the index absent and with the index current for that prefix (the intact tape also through a drive path that is a symbolic link), plus tails behind the intact tape / the tape without end-of-archive marker / an earlier record boundary (1, 2, 3, 7, 64, 5000 and on every fourth tape 70000 zero blocks; junk blocks; zero then junk): construct + Initialize; the drive file must keep its bytes as a prefix and must not grow; on success the walked tree must equal the tree of a from-scratch recovery.Index of the same bytes; a file then written through the instance, a directory made and an older file rewritten must read back byte-exactly, must not disturb older entries and must be present with the same content after another from-scratch rebuild; prefixes that cut inside a record's content or header, unaligned prefixes and stale indexes are the shapes of three open findings and are visited by their witness cases only; non-trivial = at least 6 scenarios checked on a tape of at least 4 records; distinct = distinct tape; per case one open through the directory-cache composition (`serve ftp`) over the cache directory an earlier session - over an earlier state of the tape - left behind",
+		Rule:        "per case a tape is produced by a generated history; for EVERY block-aligned prefix length (0, 512, ..., len) whose from-scratch rebuild succeeds and finds a root, combined with the index absent and with the index current for that prefix (the intact tape also through a drive path that is a symbolic link), plus tails behind the intact tape / the tape without end-of-archive marker / an earlier record boundary (1, 2, 3, 7, 64, 5000 and on every fourth tape 70000 zero blocks; junk blocks; zero then junk): construct + Initialize; the drive file must keep its bytes as a prefix and must not grow; on success the walked tree must equal the tree of a from-scratch recovery.Index of the same bytes; a file then written through the instance, a directory made and an older file rewritten must read back byte-exactly, must not disturb older entries and must be present with the same content after another from-scratch rebuild; prefixes that cut inside a record's content or header, unaligned prefixes and stale indexes are the shapes of three open findings and are visited by their witness cases only; non-trivial = at least 6 scenarios checked on a tape of at least 4 records; distinct = distinct tape; per case one open through the directory-cache composition (`serve ftp`) over the cache directory an earlier session - over an earlier state of the tape - left behind; prefixes that end inside a record behind a root and the intact tape opened with other keys / another pipeline (opening may fail, the tape must stay as it is); every fourth tape was initialised with the root proposal './' or '.'; the intact tape is also opened with the index file the writing session left behind",
 		Assumptions: []string{"'current' index = the index a from-scratch rebuild of that prefix produces"}}
 }
